@@ -1,22 +1,17 @@
-(* Dispatch.v — one table from case kind to model entry point.  A case is
-   (kind id args...); the result line is (id result). *)
-From V Require Import Base C08_Model.
+(* Dispatch.v — generic dispatch from case kind to model entry point.  A case is
+   (kind id args...); the result line is (id result).  Each property's model
+   file defines its own table  cNN_table : list (bytes * (list sx -> sx)). *)
+From V Require Import Base.
 
-Definition table : list (bytes * (list sx -> sx)) :=
-  [ (bs "c08.trie", run_c08_trie);
-    (bs "c08.accept", run_c08_accept);
-    (bs "c08.checks", run_c08_checks);
-    (bs "c08.args", run_c08_args);
-    (bs "c08.file", run_c08_file)
-  ].
+Definition table_t := list (bytes * (list sx -> sx)).
 
-Fixpoint find_kind (k : bytes) (t : list (bytes * (list sx -> sx))) : option (list sx -> sx) :=
+Fixpoint find_kind (k : bytes) (t : table_t) : option (list sx -> sx) :=
   match t with
   | [] => None
   | (k', f) :: t' => if bytes_eqb k k' then Some f else find_kind k t'
   end.
 
-Definition dispatch (c : sx) : sx :=
+Definition dispatch_with (table : table_t) (c : sx) : sx :=
   match c with
   | L (B kind :: id :: args) =>
     match find_kind kind table with
